@@ -20,8 +20,8 @@ func (tr *FnTr) val(v ssa.Value) Val {
 	case *ssa.Const:
 		return tr.constVal(x)
 	case *ssa.Global:
-		_, known := tr.eng.globals[x]
 		id := tr.eng.globalID(x)
+		known := tr.top.noteGlobal(x)
 		if !known {
 			// references typed earlier cannot point into this variable unless its type allows
 			gt := x.Type().Underlying().(*types.Pointer).Elem()
